@@ -523,6 +523,88 @@ def gen_case_tobranch(rng, chk, nested):
     return c
 
 
+# ---- long command lines with multi-byte characters (the command line is part of the auto-commit message, which is built
+# between `git stash push --staged` and `git stash pop --index`)
+
+MB_CHARS = [('デ', '3-byte'), ('漢', '3-byte'), ('é', '2-byte'), ('ü', '2-byte'), ('😀', '4-byte'), ('𝒳', '4-byte'), ('デ😀é', 'mixed')]
+ARGV0_LINKS = ['x', 'xv', 'xvc', 'xvc_']          # xvc is called through symlinks of these names: argv[0] is part of the command line
+MSG_PREFIX = len("Xvc auto-commit after '")
+
+
+def mb_text(ch, nbytes):
+    unit = len(ch.encode())
+    return ch * max(1, nbytes // unit)
+
+
+def mb_name(pad, ch, nbytes=240, ext='.bin'):
+    """a file name of `pad` ASCII bytes + about `nbytes` bytes of multi-byte characters + ext (<= 255 bytes)"""
+    return 'ab'[:pad] + mb_text(ch, nbytes) + ext
+
+
+def longcmd_case(layout, ops, kind, pad, ch, link, setting=None, ntargets=1):
+    """one case of the long-command-line stream; paths of `files` are relative to the top of the git work tree"""
+    pfx = NESTED if layout == 'nested' else ''
+    c = {'stream': 'long-cmdline', 'kind': kind, 'ops': [list(o) for o in ops], 'readonly': False, 'setting': dict(setting or {}),
+         'argv0': link, 'cwd': '', 'files': [], 'setup': [], 'files2': []}
+    if layout == 'nested':
+        c['layout'] = 'nested'
+    names = ['data/' + mb_name(pad, ch, 240 - 3 * i) for i in range(ntargets)]
+    if kind == 'track-deep':
+        # few targets, each below 14 directories of 240-byte names: the command line exceeds 128 KiB, the most a single
+        # argument of a process may have, so `git commit -m <message>` cannot even be started (E2BIG)
+        deep = '/'.join(mb_text('漢', 240) for _ in range(14))
+        names = [f'data/{deep}/' + 'ab'[:pad] + f'f{i:02d}' + mb_text(ch, 231) + '.bin' for i in range(ntargets)]
+        kind = c['kind'] = 'track'
+        c['commit_cannot_start'] = True       # for the model: the outcome parameter of `git commit` (hookOk) is false
+    if kind == 'track':
+        c['files'] = [[pfx + n, f'payload {i}\n'] for i, n in enumerate(names)]
+        c['cmd_head'], c['targets'] = ['file', 'track'], names
+        c['cmd'] = c['cmd_head'] + names
+    elif kind == 'carry-in':
+        c['files'] = [[pfx + names[0], 'payload\n']]
+        c['setup'] = [['file', 'track', names[0]]]
+        c['files2'] = [[pfx + names[0], 'payload changed by the user\n']]
+        c['cmd'] = ['file', 'carry-in', names[0]]
+    elif kind in ('copy', 'move'):
+        c['cmd'] = ['file', kind, 'data/d0.bin', names[0]]
+    elif kind == 'step-new':
+        c['cmd'] = ['pipeline', 'step', 'new', '--step-name', 's1', '--command', 'ab'[:pad] + 'echo ' + mb_text(ch, 240)]
+    elif kind == 'pipeline-new':
+        c['cmd'] = ['pipeline', 'new', '--pipeline-name', 'ab'[:pad] + mb_text(ch, 240)]
+    elif kind == 'storage-new':
+        c['cmd'] = ['storage', 'new', 'local', '--name', 'ab'[:pad] + mb_text(ch, 240), '--path', ('../../' if layout == 'nested' else '../') + 'storage1']
+    else:
+        raise ValueError(kind)
+    return c
+
+
+def gen_case_longcmd(rng, chk, nested):
+    """user state WITH staged changes (and, half of the time, stash entries of the user's own) x a state-changing command whose
+    command line is longer than 256 / 1024 / 4096 bytes and consists mostly of multi-byte characters, typed through a
+    symlink whose name length shifts the alignment of every character"""
+    ops = [tuple(o) for o in (gen_state_nested(rng, chk) if nested else gen_state(rng, chk))]
+    if not any(o[0] in STAGED_KINDS for o in ops):
+        ops.append(('stage_new', 'forced-new.txt', 'staged by the user\n'))
+    if not any(o[0] == 'stash' for o in ops) and rng.random() < 0.5:
+        ops.insert(0, ('stash', 0))
+    if rng.random() < 0.15:
+        ops.append(('stage_new', 'ノート/メモ.txt', 'a user file with a non-ASCII name\n'))
+    kind = rng.choice(['track'] * 10 + ['copy', 'copy', 'move', 'move', 'carry-in', 'carry-in', 'step-new', 'step-new', 'pipeline-new', 'storage-new'])
+    nt = 1
+    if kind == 'track':
+        nt = rng.choice([1, 1, 1, 1, 2, 5, 5, 20])           # > 256, > 512, > 1024, > 4096 bytes of command line
+    ch, cls = rng.choice(MB_CHARS)
+    pad = rng.choice([0, 1, 2])
+    link = rng.choice(ARGV0_LINKS)
+    setting = {'to_branch': 'newb'} if rng.random() < 0.12 else {}
+    c = longcmd_case('nested' if nested else 'flat', ops, kind, pad, ch, link, setting, nt)
+    chk.count('stream:long-cmdline' + (':nested' if nested else ''))
+    chk.count('longcmd:kind=' + kind + (f'x{nt}' if nt > 1 else ''))
+    chk.count('longcmd:chars=' + cls)
+    chk.count(f'longcmd:pad={pad},argv0={link}')
+    return c
+
+
 def argv_of(case):
     s = case['setting']
     a = []
@@ -797,7 +879,7 @@ def model_request(case, pre, post, chain=None):
     ac = cfgd.get('git.auto_commit', 'true') == 'true'
     ag = cfgd.get('git.auto_stage', 'false') == 'true'
     L.append(f"cfg {int(use_git)} {int(ac)} {int(ag)} {int(bool(st.get('skip_git')))} {st.get('to_branch') or '-'} {st.get('from_ref') or '-'} 0")
-    hook = 0 if any(o[0] == 'hook_fail' for o in case['ops']) else 1
+    hook = 0 if any(o[0] == 'hook_fail' for o in case['ops']) or case.get('commit_cannot_start') else 1
     if case['cmd'][0] == 'init':
         # `xvc init` calls handle_git_automation three times and writes between the calls; the write sets of the
         # phases are read off the trees of the commits it made (user-side predictions stay the model's own)
@@ -876,6 +958,13 @@ def run_case(chk, tmpl, name, case):
     # the directory the xvc command is typed in: the Xvc root (flat: the Git root; nested: proj/) or a directory below it
     cwd = os.path.normpath(os.path.join(sb.root, pfx, case.get('cwd', '')))
     try:
+        # targets of the command (the commands' own data area) and preparatory xvc commands, before the user's state is made
+        for rel, data in case.get('files', []):
+            sb.write(rel, data)
+        for a in case.get('setup', []):
+            sb.x(*a, cwd=cwd)
+        for rel, data in case.get('files2', []):
+            sb.write(rel, data)
         for op in case['ops']:
             op = tuple(op)
             if op[0] == 'edit' and len(op) > 2 and op[2] is None:
@@ -891,8 +980,10 @@ def run_case(chk, tmpl, name, case):
             with open(sb.path(pfx + '.xvc/config.local.toml'), 'a') as f:
                 f.write(body)
         pre = observe(sb)
-        rc, out, err = sb.x(*argv_of(case), env=env, cwd=cwd)
-        post = observe(sb, known_trees=pre['trees'])
+        exe = argv0_link(chk, sb.xvc, case['argv0']) if case.get('argv0') else sb.xvc
+        cmdline = ' '.join([exe] + argv_of(case)).encode()       # what xvc puts into its commit message (argv joined by spaces)
+        rc, out, err = sb.run([exe] + argv_of(case), env=env, cwd=cwd)
+        post = observe(sb, known_trees=pre['trees'])       # whatever the exit status was (0, error, 101 = panic, 124 = timeout)
         s = case['setting']
         base = pre['head_sha']
         if s.get('from_ref') and post['head'] == ['branch', s['from_ref']]:
@@ -904,9 +995,25 @@ def run_case(chk, tmpl, name, case):
         tbk = to_branch_kind(sb, pre, s['to_branch']) if s.get('to_branch') else None
         msgs = oracle(case, pre, post, chain, base_reached, refmoves)
         return {'case': case, 'pre': pre, 'post': post, 'chain': chain, 'oracle': msgs, 'rc': rc, 'refmoves': refmoves, 'to_branch_kind': tbk,
-                'stderr': err[-600:], 'stdout': out[-300:]}
+                'stderr': err[-600:], 'stdout': out[-300:], 'cmdline_bytes': len(cmdline), 'argv0': exe,
+                'cmdline_multibyte_bytes': sum(1 for b in cmdline if b >= 0x80),
+                # is byte 252 of the message (a place where a 256-byte limit would cut) inside a multi-byte character?
+                'msg_byte_252': ('beyond-the-end' if len(cmdline) + MSG_PREFIX <= 252 else
+                                 'inside-a-character' if (cmdline[252 - MSG_PREFIX] & 0xC0) == 0x80 else 'character-boundary')}
     finally:
         sb.cleanup()
+
+
+def argv0_link(chk, xvc, name):
+    """a symlink <scratch>/l/<name> -> the xvc binary of this run (same directory for all cases: only the name length varies)"""
+    d = os.path.join(chk.scratch, 'l')
+    os.makedirs(d, exist_ok=True)
+    p = os.path.join(d, name)
+    try:
+        os.symlink(xvc, p)
+    except FileExistsError:
+        pass
+    return p
 
 
 def run_cases(chk, tmpl, cases, tag):
@@ -1023,6 +1130,25 @@ CORPUS = [
     {'layout': 'nested', 'cwd': '', 'ops': [['stage_new', 'notes.txt', 'user notes\n']], 'cmd': ['file', 'track', 'data/d1.bin'], 'readonly': False,
      'setting': {'to_branch': 'div'}},
     {'layout': 'nested', 'cwd': 'data', 'ops': [], 'cmd': ['file', 'track', 'd1.bin'], 'readonly': False, 'setting': {'to_branch': 'side'}},
+    # ---- long command lines with multi-byte characters (seeded C15-4: a panic while the commit message is built, i.e. between
+    # `stash push --staged` and `stash pop --index`, leaves the user's staged work in the stash). As demonstrated: one user
+    # stash entry, a staged modification, a staged new file, an untracked file; `file track` of a name of 80 three-byte
+    # characters, in the three alignments
+    *[longcmd_case('flat', [['stash', 0], ['stage_mod', 't.txt', 'v2\n'], ['stage_new', 'staged-new.txt', 'new\n'], ['untracked', 'untracked1.txt', 'scratch\n']],
+                   'track', pad, 'デ', 'xvc') for pad in (0, 1, 2)],
+    # minimised: one staged new file
+    *[longcmd_case('flat', [['stage_new', 'staged-new.txt', 'new\n']], 'track', pad, 'デ', 'x') for pad in (0, 1, 2)],
+    # 4-byte and 2-byte characters, several targets (> 1024, > 4096 bytes), other commands, nested layout
+    longcmd_case('flat', [['stage_new', 'staged-new.txt', 'new\n']], 'track', 1, '😀', 'xv'),
+    longcmd_case('flat', [['stage_del', 'del.txt']], 'track', 0, 'é', 'xvc_'),
+    longcmd_case('flat', [['stash', 0], ['stage_mod', 'm.txt', 'v2\n']], 'track', 2, '漢', 'xvc', ntargets=5),
+    longcmd_case('flat', [['stage_new', 'staged-new.txt', 'new\n']], 'track', 0, 'デ😀é', 'xv', ntargets=20),
+    # > 128 KiB: `git commit` cannot be started at all (E2BIG); an Err inside the sandwich, the stash must still be popped
+    longcmd_case('flat', [['stash', 0], ['stage_new', 'staged-new.txt', 'new\n'], ['stage_mod', 't.txt', 'v2\n']], 'track-deep', 0, 'デ', 'xvc', ntargets=40),
+    longcmd_case('flat', [['stage_new', 'staged-new.txt', 'new\n'], ['detach']], 'copy', 1, 'デ', 'xvc'),
+    longcmd_case('flat', [['stage_mod', 't.txt', 'v2\n']], 'carry-in', 2, 'デ', 'x'),
+    longcmd_case('flat', [['stage_new', 'staged-new.txt', 'new\n']], 'step-new', 0, '漢', 'xvc'),
+    longcmd_case('nested', [['stage_new', 'notes.txt', 'user notes\n'], ['stage_mod', 'proj/in_m.txt', 'v2\n']], 'track', 1, 'デ', 'xv'),
     # `xvc init` in proj/ with staged work outside it (three handle_git_automation calls)
     {'layout': 'nested', 'cwd': '', 'ops': [['stage_new', 'notes.txt', 'user notes\n'], ['stage_mod', 'm.txt', 'more text\n']], 'cmd': ['init'],
      'readonly': False, 'setting': {}},
@@ -1041,6 +1167,8 @@ def describe(r):
             'refs_before': {k: v[:10] for k, v in r['pre']['refs'].items()}, 'refs_after': {k: v[:10] for k, v in r['post']['refs'].items()},
             'head_before': r['pre']['head'], 'head_after': r['post']['head'],
             'ref_moves': r.get('refmoves'), 'to_branch_target_was': r.get('to_branch_kind'),
+            'argv0': r.get('argv0'), 'command_line_bytes': r.get('cmdline_bytes'), 'command_line_bytes_in_multibyte_characters': r.get('cmdline_multibyte_bytes'),
+            'byte_252_of_the_commit_message_is': r.get('msg_byte_252'),
             'xvc_rc': r['rc'], 'xvc_stderr': r['stderr'], 'oracle': r['oracle']}
 
 
@@ -1057,6 +1185,13 @@ def minimise(chk, tmpl, r, failing):
     if len(ops) > 1:
         ops = shrink(ops, fails, max_steps=40)
     c = dict(case, ops=ops)
+    # several targets on the command line: keep as few as still fail
+    if len(c.get('targets', [])) > 1 and c.get('cmd') == c.get('cmd_head', []) + c['targets']:
+        def fails_t(ts):
+            n[0] += 1
+            return failing(run_case(chk, tmpl, f'shrink-{n[0]}', dict(c, targets=ts, cmd=c['cmd_head'] + ts)))
+        ts = shrink(c['targets'], fails_t, max_steps=30)
+        c = dict(c, targets=ts, cmd=c['cmd_head'] + ts)
     return run_case(chk, tmpl, 'shrunk', c)
 
 
@@ -1098,6 +1233,7 @@ def run(chk: Check):
     nnested = 150 if quick else 1300
     nnested_init = 14 if quick else 140
     ntb, ntb_nested = (44, 22) if quick else (400, 200)
+    nlong, nlong_nested = (48, 14) if quick else (420, 120)
     chk.extra['rule'] = (f'corpus ({len(CORPUS)} fixed cases: F4 on its four exit paths, detached HEAD, pathspec) + {len(KNOWN_REPLAYS)} known-finding replays (oracle only) + '
                          f'{ncases} generated cases (+ {ninit} `xvc init` cases in a plain git repository, three handle_git_automation calls) = random user state (pre-existing stash entries 0-2, detached HEAD / other branch, staged new/modified/deleted files, unstaged edits and deletions, '
                          'untracked files, user files named *.gitignore/*.xvcignore, user edits of real ignore files, rejecting pre-commit hook) x one of '
@@ -1110,12 +1246,18 @@ def run(chk: Check):
                          f'+ {nnested_init} `xvc init` cases run in {NESTED} of a plain git repository; same oracle evaluated at the top of the git work tree, model run with `root proj`. '
                          f'--TO-BRANCH STREAM: every template carries branches other (at main\'s tip), behind (ancestor), side (ahead by a user commit), div (diverged, own commit touching user files); '
                          f'{ntb} flat + {ntb_nested} nested generated cases with --to-branch drawn from {{new name, other, behind, side, div, the current branch}}, the user on main/other/side/detached '
-                         '(relation of the target to HEAD counted from the observation: to_branch_targets); oracle ref clause: every pre-existing ref is unchanged or fast-forwarded by commits that touch only xvc paths, no old tip becomes unreachable.')
+                         '(relation of the target to HEAD counted from the observation: to_branch_targets); oracle ref clause: every pre-existing ref is unchanged or fast-forwarded by commits that touch only xvc paths, no old tip becomes unreachable. '
+                         f'LONG-COMMAND-LINE STREAM: {sum(1 for c in CORPUS if c.get("stream") == "long-cmdline")} corpus cases (seeded C15-4 as demonstrated and minimised, three alignments) + {nlong} flat + {nlong_nested} nested generated cases: '
+                         'a user state that HAS staged changes (half of them with stash entries of the user\'s own) x a state-changing command (file track of 1/2/5/20 targets, copy, move, carry-in, pipeline step new, pipeline new, storage new) whose arguments are '
+                         '0-2 ASCII bytes + ~240 bytes of 2-, 3-, 4-byte or mixed UTF-8 characters (command lines > 256, > 1024, > 4096 bytes), xvc called through a symlink named x / xv / xvc / xvc_ (argv[0] is part of the commit message, '
+                         'its length shifts every character); the oracle is evaluated whatever the exit status of xvc is (xvc_exit_status:* incl. 101 = panic); see long_command_lines.')
     # the flat streams first (unchanged for a given seed), then the nested ones
     cases = list(CORPUS) + [gen_case(chk.rng, chk) for _ in range(ncases)] + [gen_init_case(chk.rng, chk) for _ in range(ninit)]
     cases += [gen_case_nested(chk.rng, chk) for _ in range(nnested)] + [gen_init_case_nested(chk.rng, chk) for _ in range(nnested_init)]
     # then the --to-branch stream
     cases += [gen_case_tobranch(chk.rng, chk, False) for _ in range(ntb)] + [gen_case_tobranch(chk.rng, chk, True) for _ in range(ntb_nested)]
+    # then the long-command-line stream
+    cases += [gen_case_longcmd(chk.rng, chk, False) for _ in range(nlong)] + [gen_case_longcmd(chk.rng, chk, True) for _ in range(nlong_nested)]
     for c in CORPUS:
         if c.get('layout') == 'nested':
             chk.count('layout:nested')
@@ -1132,6 +1274,15 @@ def run(chk: Check):
             chk.nontrivial.add(hashlib.sha1(json.dumps(c, sort_keys=True).encode()).hexdigest())
         chk.count('commits_created:' + str(len(r['chain'])))
         chk.count('git_mode:' + git_mode(c))
+        chk.count('xvc_exit_status:' + str(r['rc']) + (' (panic)' if r['rc'] == 101 else ''))
+        if c.get('stream') == 'long-cmdline':
+            n = r['cmdline_bytes']
+            chk.count('longcmd:command_line_bytes' + ('>131072' if n > 131072 else '>4096' if n > 4096 else '>1024' if n > 1024 else '>256' if n > 256 else '<=256'))
+            chk.count('longcmd:byte_252_of_message=' + r['msg_byte_252'])
+            chk.count('longcmd:commits_created:' + str(len(r['chain'])))
+            chk.count('longcmd:xvc_exit_status:' + str(r['rc']))
+            if r['pre']['stash']:
+                chk.count('longcmd:user_has_own_stash_entries')
         if r.get('to_branch_kind'):
             chk.count('to_branch_target:' + r['to_branch_kind'] + (':git-automation-' + git_mode(c) if git_mode(c) != 'commit' else ''))
         if r.get('refmoves'):
@@ -1147,6 +1298,7 @@ def run(chk: Check):
     chk.tie['streams']['oracle'] = {'cases': len(results), 'failing': sum(1 for r in results if r['oracle']),
                                     'nested_cases': sum(1 for r in results if r['case'].get('layout') == 'nested'),
                                     'nested_failing': sum(1 for r in results if r['case'].get('layout') == 'nested' and r['oracle'])}
+    chk.extra['long_command_lines'] = {k[len('longcmd:'):]: v for k, v in sorted(chk.distribution.items()) if k.startswith('longcmd:')}
     chk.extra['to_branch_targets'] = {k[len('to_branch_target:'):]: v for k, v in sorted(chk.distribution.items()) if k.startswith('to_branch_target:')}
     chk.extra['nested_layout'] = {k[len('nested:'):]: v for k, v in sorted(chk.distribution.items())
                                   if k.startswith('nested:staged=') or k.startswith('nested:cwd=') or k.startswith('nested:commits_created')
